@@ -20,6 +20,7 @@ Oracle on whatever render() raises:
 """
 from __future__ import annotations
 
+import os
 import re
 
 from ..core import Choices, short_hash
@@ -48,8 +49,14 @@ class C12(TalCheck):
                 "prefixes": 0.3, "max_depth": 3, "macros": 0.25, "i18n": 0.1}
 
     def gen(self, ch: Choices, tier: str) -> dict:
-        g = Gen(ch, self.gen_opts)
-        tmpl = g.template()
+        if ch.coin(0.35):
+            # macro / load: chains over several files
+            opts = dict(self.gen_opts, macros=0.45, max_sites=30)
+            g = Gen(ch, opts)
+            tmpl = g.template_set(1 + ch.choose(2))
+        else:
+            g = Gen(ch, self.gen_opts)
+            tmpl = g.template()
         return {"tmpl": tmpl, "plan_seed": ch.choose(1 << 30),
                 "pretty": ch.coin(0.85)}
 
@@ -145,9 +152,7 @@ class C12(TalCheck):
                 expr, fname, line, col = recs[0]
                 if not any(u["text"] == expr and u["line"] == line and
                            u["col"] == col for u in units):
-                    lines = src.split("\n")
-                    at = lines[line - 1][col:col + len(expr)] \
-                        if 0 < line <= len(lines) else None
+                    at = None
                     kind = "wrong-expression"
                     inner = units[0]
                     # classify offset drift precisely (re-sliced excerpts
@@ -164,9 +169,13 @@ class C12(TalCheck):
                         f"{units[-1]['text']!r} (line {units[-1]['line']} "
                         f"col {units[-1]['col']}); source at the reported "
                         f"position reads {at!r}"))
-                if any(r_[1] != "<string>" for r_ in recs):
-                    vs.append(self._v("wrong-filename", k, cname,
-                                      f"filenames {[r_[1] for r_ in recs]}"))
+                want_file = units[0].get("file") or "<string>"
+                if fname != want_file:
+                    vs.append(self._v(
+                        "wrong-filename", k, cname,
+                        f"the failing expression is reported in "
+                        f"{os.path.basename(fname)!r}, it stands in "
+                        f"{os.path.basename(want_file)!r}"))
                 # the enclosing call sites, innermost first
                 stack = m.get("use_stack") or []
                 if m["raise"] is None:
@@ -175,8 +184,11 @@ class C12(TalCheck):
                     want = []
                     for eid in reversed(stack):
                         u = next(o for o in occ if o.get("eid") == eid)
-                        want.append((u["text"], u["line"], u["col"]))
-                    got = [(r_[0], r_[2], r_[3]) for r_ in recs[1:]]
+                        want.append((u["text"], os.path.basename(
+                            u.get("file") or "<string>"), u["line"],
+                            u["col"]))
+                    got = [(r_[0], os.path.basename(r_[1]), r_[2], r_[3])
+                           for r_ in recs[1:]]
                     if got != want:
                         kind = "call-sites"
                         if len(got) > len(want) and got[-len(want):] == want \
